@@ -1,27 +1,26 @@
 ------------------------------ MODULE Gen_Ring ------------------------------
-(* Behaviour generator for C45 (leg A): I_Ring's actions with a history variable, so that the behaviours
-   reach every implementation state (pending lazy removals, unsorted table, re-insert before the sweep).
-   Every behaviour is one history on node 1; the emitted behaviour is completed with: look up every key on
-   node 1, build a FRESH ring (node 2) from the final live member set, look up every key there.        *)
-EXTENDS MC_Ring, Json
+(* Behaviour generator for C32 (leg A): I_Ring's actions plus queries, with a history variable.
+   Times are in bucket intervals (I_Ring's unit); the driver scales them to seconds and places each
+   flow at a seeded offset inside its bucket.  Used with -simulate (one behaviour per walk).        *)
+EXTENDS I_Ring, Json
 
-CONSTANTS SimLen
+CONSTANT SimLen
 VARIABLE hist
-gvars == <<mem, del, entries, sorted, htab, res, members, memo, hist>>
+gvars == <<bstart, head, cnt, pushed, n, interval, boh, eoh, acc, emitted, viol, hist>>
 
-GInit == IInit /\ hist = << [op |-> "init", r |-> R, p |-> P, q |-> Q, htab |-> htab, keys |-> LKeys] >>
-
+GInit == RInit /\ hist = <<>>
 Step(a, r) == a /\ hist' = Append(hist, r)
-Finish(live) == << [op |-> "lookupall", n |-> 1], [op |-> "fresh", n |-> 2, ms |-> live], [op |-> "lookupall", n |-> 2] >>
-
+\* aligned query ranges; 0 = open end; Statistics needs both ends inside the retained history
+Bounds == BoH..bstart[head]
 GNext ==
-  \/ /\ Len(hist) = SimLen /\ hist' = hist \o Finish(mem \ del) \o << [op |-> "end"] >> /\ UNCHANGED ivars /\ UNCHANGED pvars
+  \/ /\ Len(hist) = SimLen /\ hist' = Append(hist, [op |-> "end"]) /\ UNCHANGED vars
   \/ /\ Len(hist) < SimLen
-     /\ \/ \E m \in Names : Step(IInsert(m), [op |-> "ins", n |-> 1, m |-> m, ver |-> Len(hist)])
-        \/ \E m \in Names : Step(IRemove(m), [op |-> "rem", n |-> 1, m |-> m])
-        \/ \E k \in LKeys : Step(ILookup(k), [op |-> "lookup", n |-> 1, k |-> k])
-
-GView == <<mem, del, sorted, htab>>
-EmitEdge == PrintT("BEH " \o ToJson(hist' \o Finish(mem' \ del')))
-EmitAtLen == Len(hist) = SimLen + 4 => PrintT("BEH " \o ToJson(hist))
+     /\ \/ \E k \in Keys, t \in (BoH - 1)..HeadEnd : Step(AddFlow(k, t), [op |-> "add", k |-> k, t |-> t])
+        \* (`v` only multiplies the successors so that the random walk rolls over often enough)
+        \/ \E w \in BOOLEAN, v \in 1..5 : Step(Rollover(w \/ v > 2), [op |-> "roll", sink |-> (w \/ v > 2), v |-> v])
+        \/ \E g \in {0, BoH, BoH + 2}, l \in {0, HeadEnd, bstart[head] - 1} :
+              (g = 0 \/ l = 0 \/ g < l) /\ Step(UNCHANGED vars, [op |-> "list", gte |-> g, lt |-> l])
+        \/ \E r \in {<<BoH, bstart[head]>>, <<BoH + 1, bstart[head] - 1>>} :
+              Step(UNCHANGED vars, [op |-> "stats", gte |-> r[1], lt |-> r[2]])
+EmitAtLen == Len(hist) = SimLen + 1 => PrintT("BEH " \o ToJson(hist))
 =============================================================================
